@@ -3,7 +3,7 @@
     Record.add_protocluster / add_candidate_cluster / add_subregion / add_region,
     Record.clear_protoclusters / clear_candidate_clusters / clear_subregions / clear_regions,
     Record.create_regions (with the D7 repair: first/last sections are merged for as long as they overlap),
-    Record.add_region (with the D25 repair: the overlap rejection looks at every existing region),
+    Record.add_region (with the D39 repair: the overlap rejection looks at every existing region),
     Region.__init__ / CandidateCluster.__init__ / CDSCollection.__init__ (location, checks, parent links),
     the `parent` setter of CDSCollection, get_*_number.
   One Lean function per Python function, same branch order; mutation through `self` becomes a
@@ -228,7 +228,7 @@ def checkNoOverlap (region : Feat) : List Feat → E Unit
     if locationsOverlap region.loc ex.loc then throw "value-error"
     else checkNoOverlap region rest
 
-/-- the scan of `add_region` (with the D25 repair: every existing region is checked for overlap):
+/-- the scan of `add_region` (with the D39 repair: every existing region is checked for overlap):
     overlap rejection, and the first existing region the new one is smaller than gives the index -/
 def regionIndex (region : Feat) : Nat → List Feat → E Nat
   | i, [] => pure i
@@ -360,7 +360,7 @@ inductive Op where
   | mkCand (protoIds : List Nat)
   /-- add a constructed candidate cluster to the record -/
   | addCand (id : Nat)
-  /-- `protocluster.parent = candidate` for protoclusters the candidate lists (the D26 repair of
+  /-- `protocluster.parent = candidate` for protoclusters the candidate lists (the D40 repair of
       `create_candidates_from_protoclusters` does this when it drops a redundant candidate) -/
   | reparent (protoIds : List Nat) (candId : Nat)
   /-- `record.add_region(Region(cands, subs))` -/
